@@ -158,6 +158,14 @@ func (t *T) ExpireVariants(rounds ...string) {
 		}
 	}
 
+	// a parameter no call site of the window reached knows nothing any more
+	// (an empty union would print as 'Union>')
+	if len(kept) == 0 && len(t.variants) > 0 {
+		*t = *MakeUnknown()
+
+		return
+	}
+
 	t.variants = kept
 }
 
